@@ -2,6 +2,7 @@ package consnet
 
 import (
 	"fmt"
+	"strings"
 	"time"
 
 	"github.com/dappledger/AnnChain/gemmill/consensus/pbft"
@@ -279,6 +280,13 @@ func (nt *Net) restartDue(progress bool) bool {
 func (nt *Net) requeue(n *Node) {
 	rs := n.cs.VerifRoundState()
 	n.pending = nil
+	// what peers had told or served this node before it died is gone with its memory:
+	// majority claims and block catch-up towards it start afresh
+	for k := range nt.claimed {
+		if strings.HasPrefix(k, fmt.Sprintf("parts>%d:", n.Idx)) || strings.Contains(k, fmt.Sprintf(">%d:", n.Idx)) {
+			delete(nt.claimed, k)
+		}
+	}
 	for _, e := range nt.Ledger {
 		if e.From == n.Idx || e.Height < rs.Height-1 {
 			continue
